@@ -648,6 +648,7 @@ func c04UfsValidity(dotu bool, depth int) Scenario {
 			msg  func() *wire.Msg
 			// effect on the set of valid fids when the reply is a success
 			add, del int // fid numbers (-1 = none)
+			host     func() // not a request: something the host does to the tree
 		}
 		link := func(n string, ext string) func() *wire.Msg {
 			return func() *wire.Msg {
@@ -655,26 +656,27 @@ func c04UfsValidity(dotu bool, depth int) Scenario {
 			}
 		}
 		alpha := []ev{
-			{"walk 0->1 d", func() *wire.Msg { return twalk(0, 0, 1, "d") }, 1, -1},
-			{"walk 0->2 f", func() *wire.Msg { return twalk(0, 0, 2, "f") }, 2, -1},
-			{"walk 0->3 d", func() *wire.Msg { return twalk(0, 0, 3, "d") }, 3, -1},
-			{"walk 0->2 ln (a symbolic link)", func() *wire.Msg { return twalk(0, 0, 2, "ln") }, 2, -1},
-			{"clunk 1", func() *wire.Msg { return &wire.Msg{Type: wire.Tclunk, Fid: 1} }, -1, 1},
-			{"clunk 2", func() *wire.Msg { return &wire.Msg{Type: wire.Tclunk, Fid: 2} }, -1, 2},
-			{"clunk 3", func() *wire.Msg { return &wire.Msg{Type: wire.Tclunk, Fid: 3} }, -1, 3},
+			{name: "walk 0->1 d", msg: func() *wire.Msg { return twalk(0, 0, 1, "d") }, add: 1, del: -1},
+			{name: "walk 0->2 f", msg: func() *wire.Msg { return twalk(0, 0, 2, "f") }, add: 2, del: -1},
+			{name: "walk 0->3 d", msg: func() *wire.Msg { return twalk(0, 0, 3, "d") }, add: 3, del: -1},
+			{name: "walk 0->2 ln (a symbolic link)", msg: func() *wire.Msg { return twalk(0, 0, 2, "ln") }, add: 2, del: -1},
+			{name: "clunk 1", msg: func() *wire.Msg { return &wire.Msg{Type: wire.Tclunk, Fid: 1} }, add: -1, del: 1},
+			{name: "clunk 2", msg: func() *wire.Msg { return &wire.Msg{Type: wire.Tclunk, Fid: 2} }, add: -1, del: 2},
+			{name: "clunk 3", msg: func() *wire.Msg { return &wire.Msg{Type: wire.Tclunk, Fid: 3} }, add: -1, del: 3},
 		}
+		alpha = append(alpha, ev{name: "the host removes f", add: -1, del: -1, host: func() { os.Remove(filepath.Join(root, "f")) }})
 		if dotu {
 			alpha = append(alpha,
-				ev{"link through 1 to fid 2 (a file)", link("hl", "2"), -1, -1},
-				ev{"link through 1 to fid 3 (a directory: refused)", link("hd", "3"), -1, -1},
-				ev{"link through 1 to fid 7 (unknown)", link("hu", "7"), -1, -1},
-				ev{"link through 1 to fid 1 (itself)", link("hs", "1"), -1, -1},
-				ev{"symlink through 1", func() *wire.Msg {
+				ev{name: "link through 1 to fid 2 (a file)", msg: link("hl", "2"), add: -1, del: -1},
+				ev{name: "link through 1 to fid 3 (a directory: refused)", msg: link("hd", "3"), add: -1, del: -1},
+				ev{name: "link through 1 to fid 7 (unknown)", msg: link("hu", "7"), add: -1, del: -1},
+				ev{name: "link through 1 to fid 1 (itself)", msg: link("hs", "1"), add: -1, del: -1},
+				ev{name: "symlink through 1", msg: func() *wire.Msg {
 					return &wire.Msg{Type: wire.Tcreate, Fid: 1, Name: "sl", Perm: go9p.DMSYMLINK | 0777, Mode: 0, Ext: "f"}
-				}, -1, -1})
+				}, add: -1, del: -1})
 		} else {
-			alpha = append(alpha, ev{"create through 1", func() *wire.Msg { return &wire.Msg{Type: wire.Tcreate, Fid: 1, Name: "nf", Perm: 0644, Mode: 1} }, -1, -1},
-				ev{"remove 2", func() *wire.Msg { return &wire.Msg{Type: wire.Tremove, Fid: 2} }, -1, 2})
+			alpha = append(alpha, ev{name: "create through 1", msg: func() *wire.Msg { return &wire.Msg{Type: wire.Tcreate, Fid: 1, Name: "nf", Perm: 0644, Mode: 1} }, add: -1, del: -1},
+				ev{name: "remove 2", msg: func() *wire.Msg { return &wire.Msg{Type: wire.Tremove, Fid: 2} }, add: -1, del: 2})
 		}
 		seen := map[string]bool{}
 		idx := make([]int, depth)
@@ -708,11 +710,20 @@ func c04UfsValidity(dotu bool, depth int) Scenario {
 					bad = fmt.Sprintf("attach answered by %v", r)
 					return
 				}
-				valid := map[int]bool{0: true}
+				// fid 1 starts out on the directory d (the fid through which things are created)
+				if r := rpc(twalk(0, 0, 1, "d")); r == nil || r.Type != wire.Rwalk {
+					bad = fmt.Sprintf("walk to d answered by %v", r)
+					return
+				}
+				valid := map[int]bool{0: true, 1: true}
 				for _, i := range idx {
 					e := alpha[i]
-					m := e.msg()
 					hist = append(hist, e.name)
+					if e.host != nil {
+						e.host()
+						continue
+					}
+					m := e.msg()
 					r := rpc(m)
 					if r == nil {
 						bad = e.name + " was never answered"
@@ -735,7 +746,9 @@ func c04UfsValidity(dotu bool, depth int) Scenario {
 					}
 					for f := 0; f <= 3; f++ {
 						pr := rpc(&wire.Msg{Type: wire.Tstat, Fid: uint32(f)})
-						isValid := pr != nil && pr.Type == wire.Rstat
+						unknown0 := pr != nil && pr.Type == wire.Rerror && strings.Contains(pr.Ename, "unknown fid")
+						// a valid fid whose file the host has removed answers with the host's error, not with "unknown fid"
+						isValid := pr != nil && (pr.Type == wire.Rstat || pr.Type == wire.Rerror && !unknown0)
 						unknown := pr != nil && pr.Type == wire.Rerror && strings.Contains(pr.Ename, "unknown fid")
 						if valid[f] && !isValid {
 							bad = fmt.Sprintf("after %v fid %d is valid by the history but Tstat answers %v", hist, f, pr)
